@@ -29,6 +29,7 @@ def strategies_for(opts_rng):
         words.DropDeadStat(),
         words.MergeStats(),
         words.RenameStats(),
+        words.SplitPair(bar_first=rng.random() < 0.5),
     ]
 
 
